@@ -21,6 +21,7 @@ type Mutant struct {
 	Property string
 	File     string // repo-relative
 	Old, New string // exact substring replacement (Old must occur exactly once)
+	Patch    string // alternatively: a unified diff file (seeded changes)
 	Rule     string // rule expected to fire
 	Silent   bool   // negative control: a behaviour-preserving edit; the whole check must stay silent
 	Note     string
@@ -46,6 +47,9 @@ func ApplyMutant(c *ctx.Ctx, prop, id string) error {
 	for _, m := range mutants {
 		if m.Property != prop || m.ID != id {
 			continue
+		}
+		if m.Patch != "" {
+			return applyPatchOverlay(c, m.Patch)
 		}
 		b, err := c.ReadFile(m.File)
 		if err != nil {
